@@ -164,6 +164,14 @@ def part_sbs(ck, tier):
     res = vlib.run_harness("fv-read", ["c14", "sbs-replay", "--cases", r.out])
     ck.add_harness("replay:sparse-bit-set", res)
     os.remove(r.out)
+    # deeper trees with biases that are not page aligned (filled nodes crossing 512-value page edges)
+    r = vlib.run_tlc(wd, "SparseBitSetMC", cfg="SparseBitSetMC_deep.cfg", workers=4 if tier == "quick" else 12, timeout=3000, out_name="deep.out")
+    ck.add_tlc("tlc:sparse-bit-set-deep", r)
+    if not r.ok:
+        ck.spec_error("SparseBitSetMC/deep", r)
+    res = vlib.run_harness("fv-read", ["c14", "sbs-replay", "--cases", r.out])
+    ck.add_harness("replay:sparse-bit-set-deep", res)
+    os.remove(r.out)
     # V: encoder output and decoder results recorded from the real codec, judged by the TLA+ decoder
     for i in range(1 if tier == "quick" else 6):
         trace = os.path.join(wd, "sbs_trace_%d.ndjson" % i)
